@@ -89,6 +89,16 @@ func ParseWithEnvMapping(in io.Reader, mapping func(string) string) (config Conf
 	if err = dec.Decode(&config); err != nil {
 		return
 	}
+	// the configuration is one document: whatever follows it would be
+	// ignored without a word, unknown keys included.
+	var next yaml.Node
+	switch derr := dec.Decode(&next); {
+	case errors.Is(derr, io.EOF):
+	case derr != nil:
+		return config, derr
+	case !emptyDocument(&next):
+		return config, fmt.Errorf("yaml: line %d: the configuration holds more than one document", next.Line)
+	}
 	config.envMappingFunc = mapping
 	if config.envMappingFunc == nil {
 		config.envMappingFunc = func(s string) string { return s }
@@ -97,6 +107,15 @@ func ParseWithEnvMapping(in io.Reader, mapping func(string) string) (config Conf
 	config.expandEnvVars()
 	WithDefaults(&config.Info)
 	return config, nil
+}
+
+// emptyDocument reports whether a decoded document holds nothing (a trailing
+// "---" or "...").
+func emptyDocument(n *yaml.Node) bool {
+	if n.Kind == yaml.DocumentNode {
+		return len(n.Content) == 0 || (len(n.Content) == 1 && emptyDocument(n.Content[0]))
+	}
+	return n.Kind == 0 || (n.Kind == yaml.ScalarNode && n.Tag == "!!null")
 }
 
 // ParseFile decodes YAML data from a file path into a configuration struct.
